@@ -148,6 +148,19 @@ def irregular_cases(rng, tier):
         pts = [(ox + (1 + 0.3 * math.sin(3 * a)) * math.cos(a), oy + (1 + 0.3 * math.sin(3 * a)) * math.sin(a))
                for a in [2 * math.pi * (i + 0.37) / m for i in range(m)]]
         cases.append(dict(kind=f'far-from-origin {ox:g}', center=(ox, oy), pts=pts, vals=[math.cos(2.0 * i) for i in range(m)], property_only=True))
+    # closed curves sampled with the closing point included: the last control point is a round-off copy of the first one (documented
+    # to be dropped), sitting on the 0 / 2 pi seam of the angular order
+    for n_, rx, ry in ((36, 1.0, 1.0), (20, 1.5, 0.8)):
+        ths = [-2 * math.pi * i / n_ for i in range(n_)] + [-2 * math.pi]
+        pts = [(rx * math.cos(t), ry * math.sin(t)) for t in ths]
+        cases.append(dict(kind=f'closed curve with the closing sample ({n_}+1 points)', center=(0.0, 0.0), pts=pts,
+                          vals=[math.cos(p[0]) * math.exp(0.3 * p[1]) + p[0] * p[1] for p in pts], property_only=True))
+    # the same control point OBJECTS moved to a deformed domain and given new values, then a new condition built from them
+    m = 12
+    base = [(math.cos(2 * math.pi * (i + 0.3) / m), math.sin(2 * math.pi * (i + 0.3) / m)) for i in range(m)]
+    moved = [(1.6 * x, 0.7 * y + 0.15 * math.sin(3 * math.atan2(y, x))) for x, y in base]
+    cases.append(dict(kind='control point objects moved after a first condition was built', center=(0.0, 0.0), pts=moved,
+                      vals=[math.sin(2 * p[0]) + 0.5 * p[1] ** 2 + 1 for p in moved], first_pts=base, property_only=True))
     # a dense boundary: several hundred distinct control points less than 0.01 apart
     m = 240 if tier == 'quick' else 400
     pts = [(0.3 * math.cos(2 * math.pi * i / m), 0.3 * math.sin(2 * math.pi * i / m)) for i in range(m)]
@@ -179,7 +192,13 @@ def extra_phase(rep, tier, seed):
             return c
         np.linalg.solve = spy
         try:
-            dcps = [pde.DirichletControlPoint(loc=p, val=v) for p, v in zip(case['pts'], case['vals'])]
+            if case.get('first_pts'):
+                dcps = [pde.DirichletControlPoint(loc=p, val=1.0 + i) for i, p in enumerate(case['first_pts'])]
+                pde.CustomBoundaryCondition(center_point=pde.Point(case['center']), dirichlet_control_points=list(dcps))
+                for cp, p, v in zip(dcps, case['pts'], case['vals']):
+                    cp.loc, cp.val = p, v
+            else:
+                dcps = [pde.DirichletControlPoint(loc=p, val=v) for p, v in zip(case['pts'], case['vals'])]
             shared = list(dcps)      # the caller's list: reused below for a second condition, as a user comparing centres would
             cond = pde.CustomBoundaryCondition(center_point=pde.Point(case['center']), dirichlet_control_points=shared)
         except Exception as e:
